@@ -616,6 +616,20 @@ def run(ctx):
                 ctx.count('mutation-under-crc')
                 corr(ctx, d, lib_parse(d), f'mutation under recomputed crc [{tag}]')
 
+    # tiny bags written with every admissible size / off_bytes (header pre-check must not ask for more bytes than the format has)
+    for bits in ('', '1', '10101010', G.rand_bits(rng, 24)):
+        nodes = [(G.ORD, bits, ())]
+        spec = G.spec_dag(nodes)
+        recs = listing(nodes, spec, [0])
+        for magic in 'gic':
+            for size in (1, 2, 3, 4):
+                for off in ((1, 8) if size < 4 else (1, 2, 3, 8)):
+                    for idx in ((False, True) if magic == 'g' else (True,)):
+                        fr = dict(magic=magic, size=size, off=off, idx=idx, crc=False, cache=False, store=[], cflags=[])
+                        case = dict(nodes=nodes, order=[0], roots=[0], recs=recs, rpos=[0], fr=fr)
+                        ctx.count('tiny-wide')
+                        check_accept(ctx, case, spec, f'tiny-{magic}-{size}-{off}')
+
     # stored hashes with every level mask (pruned branch + ordinary ancestors inherit the mask)
     for mask in range(1, 8):
         k = G.popcount(mask)
